@@ -288,18 +288,16 @@ func runC06(c *RunCtx) {
 	c.Count("type."+name, 1)
 	c.LogValue("MESSAGE "+name, m)
 	pre := Clone(m)
-	_, ref, ok := refEncode(m)
-	if !ok {
-		c.Probe("skip.trivial-encode-failed")
-		return
-	}
-	c.Logf("TRIVIAL-HISTORY ENCODING %s", hexClip(ref, 96))
 	// a second message for later in the run, and its trivial-history encoding, are fixed NOW, before
-	// anything else happens in the process: a relative of the first (same type and discriminator,
-	// texts and lists cut or extended), a fresh value of the same type, or another type
+	// anything else happens in the process - even before the first message is encoded for the
+	// first time: a relative of the first (same type and discriminator, texts and lists cut or
+	// extended, dictionary words swapped for their partners), a fresh value of the same type, or
+	// another type
 	var m2 any
 	var ref2 []byte
 	name2 := ""
+	var ref []byte
+	ok := false
 	if t.Chance(1, 2) {
 		switch t.Intn(3) {
 		case 0:
@@ -321,6 +319,11 @@ func runC06(c *RunCtx) {
 			m2 = nil
 		}
 	}
+	if _, ref, ok = refEncode(m); !ok {
+		c.Probe("skip.trivial-encode-failed")
+		return
+	}
+	c.Logf("TRIVIAL-HISTORY ENCODING %s", hexClip(ref, 96))
 	if cfg, restore := registryConfig(c, t); cfg != "" {
 		// a configuration the encoders support: fewer checksum services registered.  The reference
 		// encodings are taken again under the same configuration.
